@@ -186,7 +186,10 @@ def judge(ctx, g, cfgt, u, isb, rng):
     Sv = R * G.unit_from_latlon(np.radians(latS), np.radians(lonS))
     dist = G.norm(Dv[None, :] - Sv)
     err = np.abs(dist - l)
-    tol = 1e-9 + 1e-12 * l + 4e-16 * (R + alt) * R / np.maximum(l, 1e-300)
+    # arcsin-latitude conditioning of the reported spot near the poles: eps / cos(lat) radians,
+    # i.e. up to R eps / cos(lat) km of position
+    spot_err_km = R * 8e-16 / np.maximum(np.cos(np.radians(np.clip(latS, -90, 90))), 1e-12)
+    tol = 1e-9 + 1e-12 * l + 4e-16 * (R + alt) * R / np.maximum(l, 1e-300) + spot_err_km
     ctx.track_worst("spot_distance_err_over_tol", float(np.nanmax(err / tol)), 1.0)
     bad = ~(err <= tol) & ~bad
     near_face.cur = bad
@@ -200,7 +203,12 @@ def judge(ctx, g, cfgt, u, isb, rng):
     bm, _, _, _ = G.emergence_from_vectors(Dv[None, :], Sv, th, ph, -1.0)
     # conditioning of the code's arccos: error ~ eps / sin(zenith); and of the spot (deg->rad)
     zen = 0.5 * np.pi - bp
-    tolb = 1e-9 + 1e-15 / np.maximum(np.abs(np.sin(zen)), 1e-8) + 4e-16 * (R + alt) / np.maximum(l, 1e-300)
+    # the spot's Earth-central angle from the sub-detector point comes from an arccos of a number
+    # close to 1 for near-nadir spots: eps / sin(theta_S) radians, i.e. R eps / sin(theta_S) km of
+    # horizontal displacement, which tilts the line of sight by that over l
+    thS_ref = G.angle_between(np.broadcast_to(Dv, Sv.shape), Sv)
+    nadir_err_km = R * 4e-16 / np.maximum(np.sin(thS_ref), 1e-12)
+    tolb = 1e-9 + 1e-15 / np.maximum(np.abs(np.sin(zen)), 1e-8) + 4e-16 * (R + alt) / np.maximum(l, 1e-300) + (spot_err_km + nadir_err_km) / np.maximum(l, 1e-300)
     ep, em = np.abs(beta_rep - bp), np.abs(beta_rep - bm)
     okp, okm = ep <= tolb, em <= tolb
     ctx.count("emergence", n)
